@@ -53,6 +53,17 @@ def site_of(case, step):
     return '*'
 
 
+def comb_tree(k):
+    """B covers the odd positions of 2k-1 tokens (k blocks), the even tokens hang below the root"""
+    n = 2 * k - 1
+    nodes = [{'y': list(range(1, n + 1)), 'd': 0, 'tok': False, 'a': treeio.attr(lab='VROOT', edge='--', lemma='--', morph='--')},
+             {'y': list(range(1, n + 1, 2)), 'd': 1, 'tok': False, 'a': treeio.attr(lab='B', edge='--', lemma='--', morph='--')}]
+    for p in range(1, n + 1):
+        nodes.append({'y': [p], 'd': 2 if p % 2 == 1 else 1, 'tok': True,
+                      'a': treeio.attr(lab='T', word='w%d' % p, edge='--', lemma='--', morph='--')})
+    return {'n': n, 'nodes': nodes}
+
+
 def run(prop, tier, seed, replay=None):
     mods = treeio.repo_modules()
     rep = core.Report(prop, tier, seed)
@@ -115,6 +126,10 @@ def run(prop, tier, seed, replay=None):
                               for _ in range(rnd.randint(1, 3))]
                     bm = None if k % 2 == 0 else rnd.choice(ALL_MODES)
                     todo_files.append(('F-%05d' % k, Ts, bm, None, seed + k, k % 8 == 0))
+                # fan-outs of two digits (the fan-out is a suffix of the RCG predicate names): a constituent with
+                # 9, 10, 12 blocks
+                for j, kb in enumerate((9, 10, 12) if tier == 'quick' else (9, 10, 11, 12, 20)):
+                    todo_files.append(('F-9%04d' % j, [comb_tree(kb), comb_tree(2)], None, None, seed + j, True))
             if prop in ('C07', 'C08'):
                 for b in BIN_BOUNDS[tier]:
                     r = core.tlc(w, 'MCB', CFG_BIN % b, coverage=True, timeout=3000)
